@@ -1538,6 +1538,12 @@ namespace cds { namespace intrusive {
                 pos.pSucc[nLevel] = pCur.ptr();
             }
 
+            if ( pCur.ptr() == nullptr && pPred != m_Head.head()) {
+                // pPred has become the last item at level 0 (its successor was removed concurrently):
+                // the list is not empty, search again
+                goto retry;
+            }
+
             return ( pos.pCur = pCur.ptr()) != nullptr;
         }
 
